@@ -525,6 +525,8 @@ const preludeCommon = `(declare-datatypes ((NB 0)) (((mk (isnil Bool) (val B))))
 (declare-fun f2i (F64) Int)
 (declare-fun f32 (F64) F64)
 (declare-const fzero F64)
+(assert (forall ((n Int)) (! (= (feq (i2f n) fzero) (= n 0)) :pattern ((i2f n)))))
+(assert (= (i2f 0) fzero))
 (assert (forall ((x F64) (y F64)) (! (= (fle x y) (or (flt x y) (feq x y))) :pattern ((fle x y)))))
 (define-fun tdiv ((a Int) (b Int)) Int (ite (>= a 0) (ite (> b 0) (div a b) (- (div a (- b)))) (ite (> b 0) (- (div (- a) b)) (div (- a) (- b)))))
 (define-fun tmod ((a Int) (b Int)) Int (- a (* b (tdiv a b))))
